@@ -4,13 +4,17 @@ assignments; render() text, bytes written by save(), get_toc() and the flags of 
 import cardgen as G
 
 WEIGHTS = {"add": 30, "vis": 16, "fold": 16, "plot": 7, "table": 7, "metrics": 4, "hyper": 2, "delete": 6, "dellist": 2,
-           "select": 3, "chain": 3}
+           "select": 3, "chain": 3, "title": 9}
 MODE = {"toc": True, "render": True, "save": True, "nodes": True, "format": True}
 
 CORPUS = [
     # D14 (repaired): folded parent with children
     [["add", False, [["A", "a"], ["A/B", "b"], ["A/B/C", "c"], ["D", ""]]], ["fold", ["A"], True], ["vis", ["A/B"], False],
      ["fold", ["A"], False], ["vis", ["A"], False], ["vis", ["A", "B"], True], ["vis", ["A"], True], ["fold", ["A/B"], True]],
+    # a heading that differs from the key its section is stored under (assignment to .title)
+    [["add", False, [["Model", "m"], ["Model/Results", "r"], ["Contact", "c"]]], ["title", ["Model/Results"], "Evaluation results"],
+     ["title", ["Contact"], "Authors & contact"], ["fold", ["Model"], True], ["title", ["Model"], "Model/Results"], ["fold", ["Model"], False],
+     ["add", False, [["Model/Results/Deep", "d"]]], ["select", "Model/Results"], ["delete", "Contact"]],
 ]
 
 
